@@ -1,0 +1,62 @@
+//go:build verif
+
+// Contracts for contract-based deductive verification (checked by /verif/govc).
+// This file is comment-only and compiled only with the build tag "verif".
+
+package balloons
+
+// An expression value (element of a MatchExpressions slice) that Expression.Validate accepts, and what it
+// evaluates to for a container per the documented operator semantics (resmgr.evalSpec, proved for Evaluate).
+//@ pure exprOK(e resmgr.Expression) bool =
+//@    ((e.Op == resmgr.Equals || e.Op == resmgr.NotEqual || e.Op == resmgr.Matches || e.Op == resmgr.MatchesNot) ==> len(e.Values) == 1) &&
+//@    ((e.Op == resmgr.Exists || e.Op == resmgr.NotExist || e.Op == resmgr.AlwaysTrue) ==> len(e.Values) == 0) &&
+//@    (e.Op == resmgr.Equals || e.Op == resmgr.NotEqual || e.Op == resmgr.Matches || e.Op == resmgr.MatchesNot || e.Op == resmgr.Exists || e.Op == resmgr.NotExist ||
+//@     e.Op == resmgr.In || e.Op == resmgr.NotIn || e.Op == resmgr.MatchesAny || e.Op == resmgr.MatchesNone || e.Op == resmgr.AlwaysTrue)
+//@ pure exprsOK(es []resmgr.Expression) bool = forall j int :: 0 <= j && j < len(es) ==> exprOK(es[j])
+//@ pure exprMatches(e resmgr.Expression, c cache.Container) bool =
+//@    resmgr.evalSpec(e.Op, e.Values, resmgr.kvVal(e.Key, c), resmgr.kvOk(e.Key, c))
+//@ pure anyExprMatches(es []resmgr.Expression, n int, c cache.Container) bool = exists j int :: 0 <= j && j < n && exprMatches(es[j], c)
+
+// C19/C12: preserve rules are OR-ed: a container matching any expression matches (non-empty rule returned),
+// a container matching none gets "".
+//@ func (*ContainerMatchConfig).MatchContainer
+//@   requires cmc != nil && c != nil && exprsOK(cmc.MatchExpressions)
+//@   modifies nothing
+//@   ensures[C19,C12] result1 == nil
+//@   ensures[C19,C12] anyExprMatches(cmc.MatchExpressions, len(cmc.MatchExpressions), c) ==> result0 != ""
+//@   ensures[C19,C12] !anyExprMatches(cmc.MatchExpressions, len(cmc.MatchExpressions), c) ==> result0 == ""
+//@ loop 0 in (*ContainerMatchConfig).MatchContainer at "range cmc.MatchExpressions"
+//@   invariant -1 <= rangeindex && rangeindex < len(cmc.MatchExpressions)
+//@   invariant !anyExprMatches(cmc.MatchExpressions, rangeindex + 1, c)
+
+// Generated deep copy (reflection-free but long): ASSUMED to return a new object and to leave everything else alone.
+//@ assume-contract (*Config).DeepCopy
+//@   modifies nothing
+//@   ensures in == nil ==> result == nil
+//@   ensures in != nil ==> fresh(result)
+
+// errors.Join returns nil only if every joined error is nil (ASSUMED model of the standard library function).
+//@ assume-contract std:errors.Join
+//@   modifies nothing
+//@   ensures result == nil ==> (forall i int :: 0 <= i && i < len(errs) ==> errs[i] == nil)
+
+// C19: a configuration accepted by Validate has only well-formed expressions ("an expression accepted by validation
+// never fails at evaluation": this is the precondition exprsOK of MatchContainer and of chooseBalloonDef).
+//@ pure defsExprsOK(defs []*BalloonDef, n int) bool = forall i int :: 0 <= i && i < n ==> exprsOK(defs[i].MatchExpressions)
+//@ pure exprsOKn(es []resmgr.Expression, n int) bool = forall j int :: 0 <= j && j < n ==> exprOK(es[j])
+//@ func (*Config).Validate
+//@   requires c != nil
+//@   modifies nothing
+//@   ensures[C19] result == nil ==> (c.Preserve != nil ==> exprsOK(c.Preserve.MatchExpressions)) && defsExprsOK(c.BalloonDefs, len(c.BalloonDefs))
+//@ loop 0 in (*Config).Validate at "range c.Preserve.MatchExpressions"
+//@   invariant -1 <= rangeindex && rangeindex < len(c.Preserve.MatchExpressions) && newobj(errs)
+//@   invariant forall k int :: 0 <= k && k < len(errs) ==> errs[k] != nil
+//@   invariant len(errs) == 0 ==> exprsOKn(c.Preserve.MatchExpressions, rangeindex + 1)
+//@ loop 1 in (*Config).Validate at "range c.BalloonDefs"
+//@   invariant -1 <= rangeindex && rangeindex < len(c.BalloonDefs) && newobj(errs)
+//@   invariant forall k int :: 0 <= k && k < len(errs) ==> errs[k] != nil
+//@   invariant len(errs) == 0 ==> (c.Preserve != nil ==> exprsOK(c.Preserve.MatchExpressions)) && defsExprsOK(c.BalloonDefs, rangeindex + 1)
+//@ loop 2 in (*Config).Validate at "range blnDef.MatchExpressions"
+//@   invariant -1 <= rangeindex && rangeindex < len(blnDef.MatchExpressions) && newobj(errs)
+//@   invariant forall k int :: 0 <= k && k < len(errs) ==> errs[k] != nil
+//@   invariant len(errs) == 0 ==> (c.Preserve != nil ==> exprsOK(c.Preserve.MatchExpressions)) && defsExprsOK(c.BalloonDefs, $t29) && exprsOKn(blnDef.MatchExpressions, rangeindex + 1)
